@@ -12,6 +12,8 @@ CONSTANTS
   FixCancelSwallow = TRUE
   NetErrorDelay = 10000
   NoUserDelay = 600000
+  AnswerWaitMax = 60000
+  Slack = 1000
 CONSTRAINT NoLostCall
 CONSTRAINT ServerMirrorsWant
 CONSTRAINT SettledState
@@ -19,6 +21,7 @@ CONSTRAINT EventsAgree
 CONSTRAINT DroppedOnClose
 CONSTRAINT RetryAfterDocumentedDelay
 CONSTRAINT CloseCompletes
+CONSTRAINT RetryHappens
 ACTION_CONSTRAINT AddOnlyOnRiseC
 ACTION_CONSTRAINT RemoveOnlyOnFallC
 CHECK_DEADLOCK FALSE
